@@ -385,7 +385,8 @@ pub fn run(seed: u64, n: usize, driver: &str, out: &str, exhaustive: bool) -> se
     // 3. the window property: every window [i,j) of a valid UTF-8 text that contains a complete character
     //    decodes (chunk mode) to exactly the complete characters inside it
     let mut windows = 0u64;
-    let pool: Vec<char> = "a\u{e9}\u{444}\u{4f60}\u{1f600}z\u{7ff}\u{800}\u{ffff}\u{10000}\u{10ffff} ".chars().collect();
+    // (U+FEFF is an ordinary character inside a text: a window that begins with it must keep it)
+    let pool: Vec<char> = "a\u{e9}\u{444}\u{4f60}\u{1f600}z\u{7ff}\u{800}\u{ffff}\u{10000}\u{10ffff} \u{feff}\u{fffe}\u{fffd}".chars().collect();
     for k in 0..(n / 10).max(20) {
         let t: String = if k % 3 == 0 {
             (0..rng.range(1, 7)).map(|_| *rng.pick(&pool)).collect()
